@@ -125,7 +125,11 @@ def to_sheets(form):
         sheets["choices"] = (form.get("choices_header") or header_of(crows), crows)
     if form.get("settings"):
         st = form["settings"]
-        sheets["settings"] = (list(st), [dict(st)])
+        # settings_header_extra: columns present in the header whose cell is empty; settings_blank_rows: empty rows above the settings row
+        head = list(st)
+        for i, h in enumerate(form.get("settings_header_extra", [])):
+            head.insert(0 if i % 2 == 0 else len(head), h)
+        sheets["settings"] = (head, [{} for _ in range(form.get("settings_blank_rows", 0))] + [dict(st)])
     if form.get("ext"):
         sheets["external_choices"] = (form.get("ext_header") or header_of(form["ext"]), [dict(r) for r in form["ext"]])
     if form.get("entities"):
